@@ -16,6 +16,10 @@ def check(run):
     ec.run_family(run, 'C05-join-where-or', 'Q_C05joinor', 'R_2x2', recsB='R_2x2', maxA=2, maxB=1)
     ec.run_family(run, 'C05-two-digit-targets', 'Q_C05wide', 'R_wide', maxA=2, hdrmodes=(False, True))
     ec.run_family(run, 'C05-join', 'Q_C05join', 'R_w2N' if not quick else 'R_w2', recsB='R_w2', maxA=2, maxB=2)
+    # rbql-js/rbql.js is an anchor of this property too
+    ec.run_family_js(run, 'C05-js-update', 'Q_C05', 'R_2x2', maxA=2, hdrmodes=(False, True))
+    ec.run_family_js(run, 'C05-js-update-ragged', 'Q_C05', 'R_w2', maxA=1)
+    ec.run_family_js(run, 'C05-js-update-join', 'Q_C05join', 'R_2x2', recsB='R_2x2', maxA=2, maxB=2)
     # random cross product of every query kind x join x fault plan over ragged tables (tlc -simulate, seeded by VERIF_SEED)
     ec.run_family(run, 'C05-random-cross-product', 'Q_MIX', 'R_w2', recsB='R_w2', maxA=3, maxB=2, hdrmodes=(False, True), breakpoints=(0, 0, 0, 1, 2), simulate=1200 if quick else 20000, opts={'sim_next': 'SimNext2'})
     run.exhaustive = True
